@@ -64,6 +64,7 @@ type c12Case struct {
 	Reads []int `json:"reads"`
 	Ties  bool  `json:"ties"`
 	Micro bool  `json:"micro,omitempty"` // operations are 1us apart instead of 1s
+	Exp   int   `json:"exp,omitempty"`   // that many additional entries which are long expired: the cycle deletes them before it looks at the limits
 }
 
 // history steps beyond the reads of key-000..key-003
@@ -214,6 +215,14 @@ func c12One(cc c12Cell, cs c12Case) (string, string, string, int) {
 		tick()
 	}
 
+	for i := 0; i < cs.Exp; i++ {
+		if err := b.Write(cache.WithTTL(ctx, -48*time.Hour, false), []byte(fmt.Sprintf("exp-%03d", i)), -1); err != nil {
+			return "write", err.Error(), "", ops
+		}
+
+		ops++
+	}
+
 	frac := cc.Frac
 	if frac == 0 {
 		frac = 0.1
@@ -238,6 +247,10 @@ func c12One(cc c12Cell, cs c12Case) (string, string, string, int) {
 		})
 
 		for k := range kept {
+			if strings.HasPrefix(k, "exp-") {
+				return "expired-entry-kept", fmt.Sprintf("%s: entry %q, expired for 48h, survived the cycle", label, k)
+			}
+
 			if !before[k] {
 				return "fabricated", fmt.Sprintf("%s: entry %q appeared during cleanup", label, k)
 			}
@@ -368,6 +381,18 @@ func c12Cases(cc c12Cell, tier string) []c12Case {
 		}
 	}
 
+	// the limits are looked at after the expired-items step: long-expired entries on top of the live ones must not
+	// count (sizes around the limit, no access history)
+	for _, n := range []int{cc.Limit - 1, cc.Limit, cc.Limit + 1, cc.Limit + 3} {
+		if n < 0 {
+			continue
+		}
+
+		for _, exp := range []int{1, 3} {
+			cases = append(cases, c12Case{N: n, Exp: exp}, c12Case{N: n, Exp: exp, Ties: true})
+		}
+	}
+
 	// histories that also contain ExpireAll (serve history must survive it) and a re-write of a key (a new value has
 	// no serve history), on two sizes above the limit
 	if cc.Strategy != 0 {
@@ -463,7 +488,7 @@ func init() {
 		ID: "C12", Title: "Eviction fires only on limit breach, removes the right amount in strategy order",
 		Cells: c12Cells, Run: c12Run,
 		Rule: "complete grid CountSoftLimit x EvictFraction {default,0.1,0.25,0.5,0.9,1} x strategy {MostExpired,LRU,LFU} x EvictionNeeded {nil,false,true} x 3 backends; " +
-			"per cell every size 0..L+6, 3L+7, 10L x every read history of length <=3 (quick) / <=4 (thorough) over 4 keys x {operations 1s apart, 1us apart, all at one instant (tied ranks)}; for LRU/LFU also every history of length <=3 over {4 reads, ExpireAll, re-write of a key} on two sizes above the limit; two cleanup cycles through the janitor's own invokeCleanup; " +
+			"per cell every size 0..L+6, 3L+7, 10L x every read history of length <=3 (quick) / <=4 (thorough) over 4 keys x {operations 1s apart, 1us apart, all at one instant (tied ranks)}; sizes around the limit with 1 or 3 additional long-expired entries (deleted by the cycle before it looks at the limits); for LRU/LFU also every history of length <=3 over {4 reads, ExpireAll, re-write of a key} on two sizes above the limit; two cleanup cycles through the janitor's own invokeCleanup; " +
 			"oracle: no eviction without breach, amount within one entry of the documented target, removed ranks <= kept ranks, cache_evict equals the entries actually removed",
 		Assumptions: []string{
 			"HeapInUseSoftLimit / SysMemSoftLimit depend on runtime.ReadMemStats, which is not a seam the harness owns; the shared code path after the decision is exercised through EvictionNeeded, and cells with limits of 2^62 bytes (heap only, sys only, both) check that a configured but unexceeded memory limit never evicts",
